@@ -11,6 +11,7 @@ import (
 	"os/exec"
 	"path/filepath"
 	"runtime/debug"
+	"strconv"
 	"strings"
 	"sync"
 	"syscall"
@@ -39,9 +40,21 @@ type RCase struct {
 	//                     seed C12-g: a walk root that cannot be read gives an empty slug and no error; 16 and
 	//                     more: a control, Pack must succeed with a complete slug)
 	//   pack-unreadable : Pack of Nodes as user Uid (unprivileged; a directory of mode 0300 cannot be read)
+	//   unpack-unwritable : Unpack of Entries as user Uid (unprivileged) into a place where the file cannot be
+	//                     created and no chmod of the file cures it: Shape "rodir" = the destination has mode
+	//                     DirMode (0555); "rosub" = an existing sub-directory Sub of dst has mode DirMode;
+	//                     "umask" = the process umask is Umask (octal, without owner-write: 0222), so the
+	//                     directories Unpack makes itself come out read-only. Unpack must RETURN - an error -
+	//                     within the worker's time limit (seed C19-h: the "permission error on create => chmod
+	//                     0600 and create again" fallback as an unbounded loop; invisible to root)
 	Files int `json:"files,omitempty"`
 	Limit int `json:"limit,omitempty"`
 	Uid   int `json:"uid,omitempty"`
+	Shape   string   `json:"shape,omitempty"`
+	Entries []UEntry `json:"entries,omitempty"`
+	DirMode uint32   `json:"dir_mode,omitempty"`
+	Sub     string   `json:"sub,omitempty"`
+	Umask   string   `json:"umask,omitempty"`
 	// Truncated: Data was shortened for the report (such a case cannot be replayed exactly)
 	Truncated bool `json:"truncated,omitempty"`
 }
@@ -261,6 +274,50 @@ func init() {
 				_, err = p.Pack(filepath.Join(arena, "p/src"), &buf)
 				judgePackComplete(&c, err, &buf, fmt.Sprintf("as uid %d of a tree with a directory it cannot read (mode 0300)", os.Geteuid()))
 			}
+		case "unpack-unwritable":
+			if os.Geteuid() == 0 {
+				os.Exit(setupExit) // root creates files wherever it likes: the case says nothing
+			}
+			if unsafeRCase(&c) != "" {
+				os.Exit(setupExit)
+			}
+			dst := filepath.Join(cfg.Work, "p/q/dst")
+			if mkdirAllExact(dst, 0755) != nil {
+				os.Exit(setupExit)
+			}
+			data := buildTarGz(c.Entries)
+			switch c.Shape {
+			case "rodir":
+				if os.Chmod(dst, os.FileMode(c.DirMode)) != nil {
+					os.Exit(setupExit)
+				}
+			case "rosub":
+				sub := filepath.Join(dst, c.Sub)
+				if mkdirAllExact(sub, 0755) != nil || os.Chmod(sub, os.FileMode(c.DirMode)) != nil {
+					os.Exit(setupExit)
+				}
+			case "umask":
+				um, err := strconv.ParseUint(c.Umask, 8, 12)
+				if err != nil {
+					os.Exit(setupExit)
+				}
+				syscall.Umask(int(um))
+			default:
+				os.Exit(setupExit)
+			}
+			uerr := slug.Unpack(bytes.NewReader(data), dst)
+			syscall.Umask(022)
+			if uerr == nil {
+				// it returned: the hang is excluded. A nil return is believable only if everything is there.
+				for _, e := range c.Entries {
+					if e.Typ != tar.TypeReg && e.Typ != tar.TypeDir {
+						continue
+					}
+					if _, err := os.Lstat(filepath.Join(dst, e.Name)); err != nil {
+						verdict(fmt.Sprintf("C12 Unpack as uid %d (%s) returned nil but the entry %q is not there: %v", os.Geteuid(), c.Shape, e.Name, err))
+					}
+				}
+			}
 		case "opendir":
 			dir := filepath.Join(cfg.Work, "bundle")
 			os.MkdirAll(dir, 0755)
@@ -287,7 +344,7 @@ func init() {
 	}
 
 	lanes["robust"] = func(cfg *Config, rep *Report) {
-		rep.Rule = "watched worker process per case (10 s, GOMEMLIMIT 512 MiB, 64 MiB stack): Pack over trees with link cycles inside and outside the tree, dereferenced directories containing themselves, links to fifos, odd names; Unpack over structurally mutated tar streams (type flags, names, sizes, truncations; checksums repaired by archive/tar); OpenDir over mutated manifest documents; the four parsers over mutated address strings; plus max(7, N/20) resource-limit cases judged by the worker itself (C02/C15: Unpack of 48..79 regular files under a soft RLIMIT_NOFILE of 24 or 32 must succeed and materialise all of them; C12: Pack of a small plain tree under RLIMIT_NOFILE 0..3 (and, as a control of the completeness check, 24 or 32), and Pack as uid 65534 of a tree whose root / dereferenced outside directory / sub-directory has mode 0300, must return an error or a complete slug); non-trivial = every case; distinct by case"
+		rep.Rule = "watched worker process per case (10 s, GOMEMLIMIT 512 MiB, 64 MiB stack): Pack over trees with link cycles inside and outside the tree, dereferenced directories containing themselves, links to fifos, odd names; Unpack over structurally mutated tar streams (type flags, names, sizes, truncations; checksums repaired by archive/tar); OpenDir over mutated manifest documents; the four parsers over mutated address strings; plus max(10, N/20) resource-limit and permission cases judged by the worker itself or by its watchdog (C19: Unpack as uid 65534 of a small archive of regular files into a destination of mode 0555/0500/0511, into a destination with a read-only sub-directory, or under a umask without owner-write (0222, 0277, 0322: the directories Unpack makes itself are read-only) must return - a permission error - within the time limit; C02/C15: Unpack of 48..79 regular files under a soft RLIMIT_NOFILE of 24 or 32 must succeed and materialise all of them; C12: Pack of a small plain tree under RLIMIT_NOFILE 0..3 (and, as a control of the completeness check, 24 or 32), and Pack as uid 65534 of a tree whose root / dereferenced outside directory / sub-directory has mode 0300, must return an error or a complete slug); non-trivial = every case; distinct by case"
 		r := NewRng(cfg.Seed)
 		self, _ := os.Executable()
 		var cases []RCase
@@ -392,19 +449,19 @@ func init() {
 				ctx, cancel := context.WithTimeout(context.Background(), 10*time.Second)
 				defer cancel()
 				args := []string{"-lane", "robust-child", "-replay", cf, "-work", dir, "-out", filepath.Join(dir, "out.json")}
-				if c.Kind == "pack-unreadable" {
+				if dropsUid(c.Kind) {
 					if os.Geteuid() == 0 {
 						// the worker drops to the case's uid before it builds and packs the tree (main.go: -uid
 						// chowns the scratch directory first; no model driver is needed there)
 						if c.Uid <= 0 {
-							rep.Count("skipped:pack-unreadable-without-uid")
+							rep.Count("skipped:" + c.Kind + "-without-uid")
 							return
 						}
 						os.Chmod(dir, 0755)
 						if !othersCanReach(dir) {
 							// a scratch directory below one that other users cannot traverse (TMPDIR under /root):
 							// the unprivileged worker could not even read its case
-							rep.Count("skipped:pack-unreadable-scratch-not-reachable-unprivileged")
+							rep.Count("skipped:" + c.Kind + "-scratch-not-reachable-unprivileged")
 							return
 						}
 						args = append(args, "-uid", fmt.Sprint(c.Uid), "-driver", "")
@@ -430,7 +487,7 @@ func init() {
 				if ee, ok := err.(*exec.ExitError); ok {
 					code = ee.ExitCode()
 				}
-				if ctx.Err() == nil && code == 2 && c.Kind == "pack-unreadable" && (strings.Contains(stderr.String(), "setuid:") || strings.Contains(stderr.String(), "setgid:")) {
+				if ctx.Err() == nil && code == 2 && dropsUid(c.Kind) && (strings.Contains(stderr.String(), "setuid:") || strings.Contains(stderr.String(), "setgid:")) {
 					// main.go could not switch to the unprivileged user (a sandbox without that uid mapped)
 					rep.Count("skipped:cannot-drop-privileges")
 					return
@@ -466,6 +523,9 @@ func init() {
 				}
 				if ctx.Err() != nil {
 					what = "did not return within 10 s"
+					if c.Kind == "unpack-unwritable" {
+						what = fmt.Sprintf("as uid %d (%s: the file cannot be created and chmod of the file does not cure it) did not return within 10 s; it must return a permission error", c.Uid, c.Shape)
+					}
 					rep.Count("outcome:timeout")
 				} else {
 					msg := stderr.String()
@@ -514,7 +574,21 @@ func init() {
 
 // ---------- resource-limit cases ----------
 
-var resourceShapes = []string{"unpack-nofile", "pack-nofile", "pack-unreadable:root", "pack-unreadable:deref", "pack-nofile:deref", "pack-unreadable:sub", "pack-nofile:control"}
+var resourceShapes = []string{"unpack-nofile", "pack-nofile", "pack-unreadable:root", "pack-unreadable:deref", "pack-nofile:deref", "pack-unreadable:sub", "pack-nofile:control",
+	"unpack-unwritable:rodir", "unpack-unwritable:umask", "unpack-unwritable:rosub"}
+
+// dropsUid: the worker of such a case runs as the case's unprivileged uid
+func dropsUid(kind string) bool { return kind == "pack-unreadable" || kind == "unpack-unwritable" }
+
+// unwritableEntries: a small archive of regular files (and directories); the first entry that cannot be
+// created is a regular file at want (so that the failing call is the file creation, not a MkdirAll).
+func unwritableEntries(r *Rng, want string) []UEntry {
+	es := []UEntry{{Name: want, Typ: tar.TypeReg, Mode: int64([]int{0644, 0600, 0444}[r.Intn(3)]), Mtime: 1400000000, Body: r.Pick([]string{"", "x", "content"})}}
+	for i, n := 0, r.Intn(3); i < n; i++ {
+		es = append(es, UEntry{Name: fmt.Sprintf("%s%d", r.Pick([]string{"b", "g/h", "z"}), i), Typ: tar.TypeReg, Mode: 0644, Mtime: 1400000001 + int64(i), Body: "later"})
+	}
+	return es
+}
 
 // plainTree: a small source tree of regular files and directories below p/src (what a complete slug must
 // list is packExpect), next to an outside directory p/ext/shared for the dereference shapes.
@@ -561,6 +635,16 @@ func genResourceCase(r *Rng, k int) RCase {
 		c := RCase{Kind: "pack-nofile", Nodes: plainTree(r), Limit: 24 + 8*r.Intn(2), Deref: true}
 		c.Nodes = append(c.Nodes, PNode{Path: "p/src/shared", Kind: "l", Data: "../ext/shared"})
 		return c
+	case "unpack-unwritable:rodir":
+		// a read-only destination, any archive with a regular file at the top
+		return RCase{Kind: "unpack-unwritable", Shape: "rodir", Uid: 65534, DirMode: uint32([]int{0555, 0500, 0511}[r.Intn(3)]), Entries: unwritableEntries(r, r.Pick([]string{"a", "main.tf"}))}
+	case "unpack-unwritable:umask":
+		// a umask without owner-write: the directory Unpack makes for d/f is read-only
+		return RCase{Kind: "unpack-unwritable", Shape: "umask", Uid: 65534, Umask: r.Pick([]string{"222", "222", "277", "322"}), Entries: unwritableEntries(r, r.Pick([]string{"d/f", "d/e/f", "mod/main.tf"}))}
+	case "unpack-unwritable:rosub":
+		// a read-only directory that is already in dst
+		sub := r.Pick([]string{"d", "d/e", "mod"})
+		return RCase{Kind: "unpack-unwritable", Shape: "rosub", Uid: 65534, Sub: sub, DirMode: uint32([]int{0555, 0500}[r.Intn(2)]), Entries: unwritableEntries(r, sub+"/"+r.Pick([]string{"f", "main.tf"}))}
 	case "pack-unreadable:root":
 		c := RCase{Kind: "pack-unreadable", Nodes: plainTree(r), Uid: 65534, Deref: r.Bool()}
 		setPerm(c.Nodes, "p/src", 0300)
@@ -605,6 +689,39 @@ func unsafeRCase(c *RCase) string {
 	case "unpack-nofile":
 		if c.Files <= 0 || c.Files > 5000 || c.Limit < 16 {
 			return "file count / descriptor limit out of range"
+		}
+		return ""
+	case "unpack-unwritable":
+		if c.Uid <= 0 {
+			return "the recorded input names no unprivileged uid"
+		}
+		if len(c.Entries) == 0 || len(c.Entries) > 64 {
+			return "the recorded input has no (or too large an) entry list"
+		}
+		for _, e := range c.Entries {
+			// plain files and directories below dst only: no links, no climbing or absolute names
+			if e.Typ != tar.TypeReg && e.Typ != tar.TypeDir {
+				return fmt.Sprintf("entry %q: only regular files and directories are replayed in this kind", e.Name)
+			}
+			if why := unsafeRelName(e.Name, false); why != "" {
+				return "entry name: " + why
+			}
+		}
+		switch c.Shape {
+		case "rodir":
+		case "rosub":
+			if why := unsafeRelName(c.Sub, false); why != "" || c.Sub == "" {
+				return "sub-directory: not a plain relative path"
+			}
+		case "umask":
+			if v, err := strconv.ParseUint(c.Umask, 8, 12); err != nil || v > 0777 {
+				return "umask is not an octal number 0..777"
+			}
+		default:
+			return fmt.Sprintf("unknown shape %q", c.Shape)
+		}
+		if c.DirMode > 0777 {
+			return "directory mode out of range"
 		}
 		return ""
 	case "parse":
